@@ -403,9 +403,23 @@ def replay_slit_row(mode):
     sums = s.weight_matrix.sum(axis=0)
     flat = s.apply(np.ones_like(s.q_calc))
     bad = bool(s.weight_matrix.min() < 0 or np.max(np.abs(sums - 1)) > 1e-9)
+    extra = {}
+    if mode == "width_only":
+        # rows against the documented multiplicity rule, including windows that fold at q' = 0
+        qc = np.linspace(0.001, 0.1, 100)
+        qd, Wd = np.array([0.01, 0.05]), 0.03
+        Wm = resolution.slit_resolution(qc, qd, np.zeros(2), np.full(2, Wd))
+        e = np.hstack([qc[0] - (qc[1] - qc[0]) / 2, (qc[1:] + qc[:-1]) / 2, qc[-1] + (qc[-1] - qc[-2]) / 2])
+        for i, qi in enumerate(qd):
+            mult = 1.0 * ((qc >= qi - Wd) & (qc <= qi + Wd)) + (1.0 * (qc < abs(qi - Wd)) if qi < Wd else 0.0)
+            raw = mult * np.diff(e) / (2 * Wd)
+            want = raw / raw.sum()
+            if not np.allclose(Wm[:, i], want, rtol=1e-12, atol=1e-15):
+                bad = True
+                extra["row_for_q=%g_W=%g" % (qi, Wd)] = {"real_first_bins": Wm[:6, i].tolist(), "spec_first_bins": want[:6].tolist()}
     return bad, {"call": "Slit1D(q=logspace(-3,-1,30), q_length=%g, q_width=%g): weights and smeared flat intensity" % (L, W),
-                 "real": {"row_sum_min": float(sums.min()), "row_sum_max": float(sums.max()),
-                          "flat_intensity_min": float(flat.min()), "flat_intensity_max": float(flat.max())},
+                 "real": dict({"row_sum_min": float(sums.min()), "row_sum_max": float(sums.max()),
+                               "flat_intensity_min": float(flat.min()), "flat_intensity_max": float(flat.max())}, **extra),
                  "spec": "every row sums to one; a flat intensity is returned unchanged"}
 
 
